@@ -239,7 +239,7 @@ func (d *badgerNodeDB) cleanMultipartLocked(removeNodes bool) error {
 
 	var logged bool
 	for it.Rewind(); it.Valid(); it.Next() {
-		key := it.Item().Key()
+		key := it.Item().KeyCopy(nil)
 		if removeNodes {
 			if !logged {
 				d.logger.Info("removing some nodes from a multipart restore")
